@@ -87,6 +87,16 @@ func runC13(c *Case) {
 			}
 		}
 	}
+	// emptied: the only writer deletes every row and vacuums with a cutoff between the deletes and its own
+	// open, so that the current version is a committed empty tree
+	if nver == 1 && (c.Index/5)%6 == 5 {
+		cn, t := w.ws[0].conn, w.ws[0].table
+		cn.SetWriteTime(200)
+		e1 := cn.Exec("delete from " + t)
+		res, e2 := cn.Rows("select vacuum_error from s3db_vacuum('"+t+"', ?)", tstr(300))
+		w.logf("w0 delete everything @200; vacuum cutoff @300 -> %v %v %v", e1, res, e2)
+		c.Count("cases_on_a_committed_empty_version", 1)
+	}
 	base := walk.Base(w.prefix)
 	w.st.PageSize = []int{0, 1, 2}[c.Index%3]
 	unmerged := len(walk.VersionNames(w.st.Snapshot(), base, "current"))
